@@ -6,7 +6,7 @@ allocas get fixed per-function frame addresses; function pointers are small inte
 generated switch.  Optional --seq makes every function resumable (Lazy-CSeq style) so that a harness-side
 round-robin scheduler can interleave threads at visible operations (atomics, volatile accesses, listed stubs).
 """
-import re, sys, argparse, collections
+import re, sys, argparse, collections, fnmatch
 from ir2c import Module, T, INT, PTR, P, tokenize, cid, decode_cstr, stdw
 
 class Layout:
@@ -84,7 +84,7 @@ class Flat:
     # ---- addresses
     def ref(s, n):
         if n in s.m.funcs:
-            pruned = s.in_ginit and s.prune_init and s.icall_only and n not in s.icall_only
+            pruned = s.in_ginit and s.prune_init and s.icall_only and not s.icall_ok(n)
             if n not in s.fseen and not pruned: s.fseen.add(n); s.fwork.append(n)
             if n not in s.faddr: s.faddr[n] = 0x100 + 16 * len(s.faddr)
             return 'FN_' + cid(n)
@@ -102,6 +102,7 @@ class Flat:
             s.gseen.add(n); s.gwork.append(n)
         return 'G_' + s.gname(n)
     def gname(s, n): return cid(n) if not n.startswith('.') else 'g' + cid(n)
+    def icall_ok(s, n): return n in s.icall_only or any(('*' in p) and fnmatch.fnmatchcase(n, p) for p in s.icall_only)
     # ---- constants (scalar) ; aggregates only via init stores
     def const(s, ty, v):
         k = v[0]; rt = s.res(ty) if ty is not None else None
@@ -236,8 +237,13 @@ class Flat:
             if hi - lo == 1: return leaf(lo)
             mid = (lo + hi) // 2
             return 'if (p < %d) { %s } else { %s }' % (mid, tree(lo, mid, leaf), tree(mid, hi, leaf))
+        out.append('#ifndef IR_BRANCHFREE_MEM')
         out.append('static inline ir_u64 ir_ldw(ir_u64 a) { ir_u64 p = (a - 0x10000ull) / %dull; ir_u64 w = (a / 8ull) %% %dull; %s }' % (pb, pw, tree(0, npages, lambda i: 'return IR_PG%d[w];' % i)))
         out.append('static inline void ir_stw(ir_u64 a, ir_u64 v) { ir_u64 p = (a - 0x10000ull) / %dull; ir_u64 w = (a / 8ull) %% %dull; %s }' % (pb, pw, tree(0, npages, lambda i: 'IR_PG%d[w] = v; return;' % i)))
+        out.append('#else  /* path-wise exploration: page selection without control-flow branches (a symbolic address must not fork one path per page) */')
+        out.append('static inline ir_u64 ir_ldw(ir_u64 a) { ir_u64 p = (a - 0x10000ull) / %dull; ir_u64 w = (a / 8ull) %% %dull; ir_u64 v = 0; %s return v; }' % (pb, pw, ' '.join('v = (p == %d) ? IR_PG%d[w] : v;' % (i, i) for i in range(npages))))
+        out.append('static inline void ir_stw(ir_u64 a, ir_u64 v) { ir_u64 p = (a - 0x10000ull) / %dull; ir_u64 w = (a / 8ull) %% %dull; %s }' % (pb, pw, ' '.join('IR_PG%d[w] = (p == %d) ? v : IR_PG%d[w];' % (i, i, i) for i in range(npages))))
+        out.append('#endif')
         out.append('#define IR_MEM_END_PAGED %dull' % (0x10000 + npages * pb))
         return out
     # ---- driver
@@ -271,6 +277,7 @@ class Flat:
         init = 'void ir_init_globals(void) {\n  ' + '\n  '.join(inits) + '\n}\n'
         from ir2c import T as _T
         hdr.append('#define IR_CALL_V_U64 %s   /* call a translated function of type void(void*) through its token (for callout stubs) */' % s.dispatcher(_T('void'), [PTR(INT(8))]))
+        hdr.append('#define IR_CALL_APPLIER5 %s   /* call a translated dispatch_data applier (block invoke) through its token */' % s.dispatcher(INT(1), [PTR(INT(8)), PTR(INT(8)), INT(64), PTR(INT(8)), INT(64)]))
         disp = s.dispatchers()
         if s.seq:
             lines = ['#ifdef IR_DUMP_FRAMES', 'void ir_dump_frames(void) { int printf(const char *, ...);']
@@ -320,7 +327,7 @@ class Flat:
             for fn, addr in s.faddr.items():
                 f = s.m.funcs[fn]
                 if f.va or fn.startswith('llvm.'): continue
-                if s.icall_only and fn not in s.icall_only: continue
+                if s.icall_only and not s.icall_ok(fn): continue
                 if s.sig(f.ret, [t for t, _ in f.params]) != (rt, ats): continue
                 call = '%s(%s)' % (cid(fn), ', '.join('a%d' % i for i in range(len(ats))))
                 cases.append('    case FN_%s: %s' % (cid(fn), ('%s; return;' % call) if rt == 'void' else 'return %s;' % call))
